@@ -9,6 +9,8 @@ structure State where
   w : Writer := {}
   wg : WG := {}
   qto : Nat := 1000
+  zl : ZL := {}
+  zq : Nat := 16
 
 def txStr (l : List Tx) : String :=
   if l.isEmpty then "-" else
@@ -154,6 +156,25 @@ def step (st : State) (w : List String) : State × String :=
         | _ => "running"
       (st, s!"writes={p.writes} out={out}")
     | _, _ => (st, "bad-op")
+  | ["zl", "new", q] =>
+    match q.toNat? with
+    | some q => ({ st with zl := {}, zq := q }, "ok")
+    | none => (st, "bad-op")
+  | ["zl", "enter", n] =>
+    match n.toNat? with
+    | some n =>
+      let r := (List.range n).foldl (fun (acc : ZL × Nat) _ =>
+        let e := acc.1.enter st.zq
+        (e.1, if e.2 then acc.2 + 1 else acc.2)) (st.zl, 0)
+      ({ st with zl := r.1 }, s!"admitted={r.2} shed={n - r.2} count={r.1.count}")
+    | none => (st, "bad-op")
+  | ["zl", "leave", n] =>
+    match n.toNat? with
+    | some n =>
+      let z := (List.range n).foldl (fun (acc : ZL) _ => acc.leave) st.zl
+      ({ st with zl := z }, s!"left={st.zl.held - z.held} count={z.count}")
+    | none => (st, "bad-op")
+  | "gl" :: _ => (st, "unmodelled")
   | ["ing", "new", q] =>
     match q.toNat? with
     | some q => ({ st with qto := q }, "ok")
